@@ -5,4 +5,5 @@ Extraction "model.ml" new_dense new_sparse complete_graph complete_partite path 
   flower_snark hypercube folded_hypercube kneser bipartite_kneser circulant circulant_bipartite
   generalised_petersen friendship random_graph random_tree prufer_decode multicode_decode
   induced_view g_N g_M g_degrees g_neighbours g_is_edge complement_dense line_graph rook
-  split_edge contract e_val add_edges sparse_of_edges d_empty.
+  split_edge contract e_val add_edges sparse_of_edges d_empty
+  h_new_dense h_view h_write h_new_sparse hs_view hn_write.
